@@ -196,6 +196,106 @@ func c26CommaOkLookups(f *core.FuncInfo, field string) (okVar *types.Var, pts []
 	return
 }
 
+// c26Lookups generalises c26CommaOkLookups to a lookup made by a helper: the lookups of f are its own
+// comma-ok reads of the map field or, when it has none, its calls of module functions that make such a
+// read, hold none of the sites in `other`, and report the outcome of the read as a boolean result
+// (in each outcome every return yields that outcome at the result position). The found variable is
+// then the variable of f receiving that result.
+func c26Lookups(f *core.FuncInfo, field string, other func(*core.CallSite) bool) (okVar *types.Var, pts []core.Point, consistent bool) {
+	if v, p, cons := c26CommaOkLookups(f, field); v != nil || !cons {
+		return v, p, cons
+	}
+	consistent = true
+	for _, cs := range f.Calls() {
+		fn, isFn := cs.Callee.(*types.Func)
+		if !isFn || cs.InDefer || cs.InGo {
+			continue
+		}
+		h := f.P.FuncOf(fn)
+		if h == nil || h == f || h.Body == nil {
+			continue
+		}
+		hv, hpts, hcons := c26CommaOkLookups(h, field)
+		if hv == nil || !hcons || len(hpts) == 0 || len(assignsToVar(h, hv)) != len(hpts) || len(h.SitesMay(other, 2)) > 0 {
+			continue
+		}
+		k := c26ReportingResult(h, hv)
+		if k < 0 {
+			continue
+		}
+		v := c26ResultReceiver(f, cs.Call, k)
+		if v == nil || (okVar != nil && v != okVar) {
+			consistent = false
+			continue
+		}
+		okVar = v
+		pts = append(pts, cs.Pt)
+	}
+	return
+}
+
+// c26ReportingResult: the position of a boolean result of h that equals the variable v on every return
+// (evaluated under both values of v along the edges feasible for that value); -1 if there is none.
+func c26ReportingResult(h *core.FuncInfo, v *types.Var) int {
+	if h.Type.Results == nil {
+		return -1
+	}
+	n := 0
+	for _, fl := range h.Type.Results.List {
+		if len(fl.Names) == 0 {
+			n++
+		} else {
+			n += len(fl.Names)
+		}
+	}
+	for k := 0; k < n; k++ {
+		ok := true
+		for _, t := range []c26Tri{c26True, c26False} {
+			t := t
+			atom := func(e ast.Expr) c26Tri {
+				if varOf(h, e) == v {
+					return t
+				}
+				return c26Unknown
+			}
+			infeasible := c26Infeasible(h, atom)
+			for _, rp := range h.ReturnPoints() {
+				if _, reach := (core.PathQuery{F: h, From: h.Entry(), Target: core.PointSet(rp), AvoidEdge: infeasible}).Find(); !reach {
+					continue
+				}
+				r := rp.Node().(*ast.ReturnStmt)
+				if k >= len(r.Results) || c26Eval(h, r.Results[k], atom) != t {
+					ok = false
+				}
+			}
+		}
+		if ok {
+			return k
+		}
+	}
+	return -1
+}
+
+// c26ResultReceiver: the variable of g that receives result k of the call (the call being the sole
+// right-hand side of an assignment or definition).
+func c26ResultReceiver(g *core.FuncInfo, call *ast.CallExpr, k int) *types.Var {
+	var v *types.Var
+	g.InspectOwn(func(n ast.Node) bool {
+		switch s := n.(type) {
+		case *ast.AssignStmt:
+			if len(s.Rhs) == 1 && ast.Unparen(s.Rhs[0]) == ast.Expr(call) && k < len(s.Lhs) {
+				v = varOf(g, s.Lhs[k])
+			}
+		case *ast.ValueSpec:
+			if len(s.Values) == 1 && ast.Unparen(s.Values[0]) == ast.Expr(call) && k < len(s.Names) {
+				v, _ = g.Info().ObjectOf(s.Names[k]).(*types.Var)
+			}
+		}
+		return true
+	})
+	return v
+}
+
 // c26IsTrue / c26IsFalse: boolean constants by value, not by spelling.
 func c26IsTrue(f *core.FuncInfo, e ast.Expr) bool {
 	v, ok := core.ConstVal(f.Info(), e)
